@@ -63,6 +63,58 @@ fn all_items(items: &[Item]) -> Vec<&Item> {
     out
 }
 
+fn file_defs_of(f: &File) -> FileDefs {
+    let mut d = FileDefs::default();
+    for it in all_items(&f.items) {
+        match it {
+            Item::Fn(x) => {
+                d.fns.insert(x.sig.ident.to_string());
+            }
+            Item::Const(x) => {
+                d.consts.insert(x.ident.to_string());
+            }
+            Item::Static(x) => {
+                d.consts.insert(x.ident.to_string());
+            }
+            Item::Struct(x) => {
+                d.types.insert(x.ident.to_string());
+            }
+            Item::Enum(x) => {
+                d.types.insert(x.ident.to_string());
+            }
+            Item::Type(x) => {
+                d.types.insert(x.ident.to_string());
+            }
+            Item::Impl(im) if im.trait_.is_none() => {
+                if let Some(t) = type_last_ident(&im.self_ty) {
+                    for ii in im.items.iter() {
+                        if let ImplItem::Fn(f) = ii {
+                            d.inherent.insert((t.clone(), f.sig.ident.to_string()));
+                        }
+                    }
+                }
+            }
+            _ => {}
+        }
+    }
+    d
+}
+
+/// the traits named in `#[derive(..)]` attributes
+fn derive_list(attrs: &[Attribute]) -> BTreeSet<String> {
+    let mut out = BTreeSet::new();
+    for a in attrs {
+        if a.path().is_ident("derive") {
+            if let Ok(l) = a.meta.require_list() {
+                let mut ids = BTreeSet::new();
+                idents_of(l.tokens.clone(), &mut ids);
+                out.extend(ids);
+            }
+        }
+    }
+    out
+}
+
 fn type_last_ident(t: &Type) -> Option<String> {
     match t {
         Type::Path(p) => p.path.segments.last().map(|s| s.ident.to_string()),
@@ -258,7 +310,112 @@ struct Module {
     errors: Vec<String>,
 }
 
+/// one `macro .. $p=tokens` binding, checked against the actual invocations at the end of the configuration
+struct MacroBinding {
+    file: String,
+    mac: String,
+    arm: usize,
+    param: String,
+    bound: String,
+    module: usize,
+}
+
+/// split a token stream at top-level commas
+fn split_commas(ts: proc_macro2::TokenStream) -> Vec<Vec<proc_macro2::TokenTree>> {
+    let mut out = vec![vec![]];
+    for t in ts {
+        match &t {
+            proc_macro2::TokenTree::Punct(p) if p.as_char() == ',' => out.push(vec![]),
+            _ => out.last_mut().unwrap().push(t),
+        }
+    }
+    if out.last().map(|l| l.is_empty()).unwrap_or(false) {
+        out.pop();
+    }
+    out
+}
+
+/// where `$name` sits in a macro pattern: indices of comma-separated fragments, descending into the group of a fragment
+fn locate_param(pat: proc_macro2::TokenStream, name: &str) -> Option<Vec<usize>> {
+    for (i, frag) in split_commas(pat).into_iter().enumerate() {
+        for (j, t) in frag.iter().enumerate() {
+            if let proc_macro2::TokenTree::Punct(p) = t {
+                if p.as_char() == '$' {
+                    if let Some(proc_macro2::TokenTree::Ident(id)) = frag.get(j + 1) {
+                        if id == name {
+                            return Some(vec![i]);
+                        }
+                    }
+                }
+            }
+            if let proc_macro2::TokenTree::Group(g) = t {
+                if let Some(mut rest) = locate_param(g.stream(), name) {
+                    let mut p = vec![i];
+                    p.append(&mut rest);
+                    return Some(p);
+                }
+            }
+        }
+    }
+    None
+}
+
+fn extract_arg(args: proc_macro2::TokenStream, path: &[usize]) -> Option<Vec<proc_macro2::TokenTree>> {
+    let frags = split_commas(args);
+    let frag = frags.get(path[0])?.clone();
+    if path.len() == 1 {
+        return Some(frag);
+    }
+    for t in frag.iter() {
+        if let proc_macro2::TokenTree::Group(g) = t {
+            return extract_arg(g.stream(), &path[1..]);
+        }
+    }
+    None
+}
+
+/// arms of a macro_rules! definition: (pattern, body)
+fn macro_arms(m: &ItemMacro) -> Vec<(proc_macro2::TokenStream, proc_macro2::TokenStream)> {
+    let toks: Vec<proc_macro2::TokenTree> = m.mac.tokens.clone().into_iter().collect();
+    let mut out = vec![];
+    let mut i = 0;
+    while i + 3 < toks.len() {
+        if let (proc_macro2::TokenTree::Group(p), proc_macro2::TokenTree::Punct(a), proc_macro2::TokenTree::Punct(b), proc_macro2::TokenTree::Group(body)) = (&toks[i], &toks[i + 1], &toks[i + 2], &toks[i + 3]) {
+            if a.as_char() == '=' && b.as_char() == '>' {
+                out.push((p.stream(), body.stream()));
+                i += 4;
+                if i < toks.len() && matches!(&toks[i], proc_macro2::TokenTree::Punct(p) if p.as_char() == ';') {
+                    i += 1;
+                }
+                continue;
+            }
+        }
+        break;
+    }
+    out
+}
+
+/// invocations `name!( .. )` inside a token stream (recursively)
+fn find_invocations(ts: proc_macro2::TokenStream, name: &str, out: &mut Vec<proc_macro2::TokenStream>) {
+    let toks: Vec<proc_macro2::TokenTree> = ts.into_iter().collect();
+    for i in 0..toks.len() {
+        if let proc_macro2::TokenTree::Ident(id) = &toks[i] {
+            if id == name {
+                if let (Some(proc_macro2::TokenTree::Punct(p)), Some(proc_macro2::TokenTree::Group(g))) = (toks.get(i + 1), toks.get(i + 2)) {
+                    if p.as_char() == '!' {
+                        out.push(g.stream());
+                    }
+                }
+            }
+        }
+        if let proc_macro2::TokenTree::Group(g) = &toks[i] {
+            find_invocations(g.stream(), name, out);
+        }
+    }
+}
+
 struct Driver {
+    macro_bindings: Vec<MacroBinding>,
     /// file of the declaration being processed (tie-break for type names)
     cur_file: String,
     repo: String,
@@ -277,6 +434,7 @@ impl Driver {
         let p = Path::new(&self.repo).join(file);
         let text = std::fs::read_to_string(&p).map_err(|e| format!("{}: {}", p.display(), e))?;
         let parsed = syn::parse_file(&text).map_err(|e| format!("{}: parse error: {}", file, e))?;
+        self.tables.file_defs.insert(file.to_string(), file_defs_of(&parsed));
         self.sources.insert(file.to_string(), Source { text, file: parsed });
         Ok(())
     }
@@ -322,12 +480,108 @@ impl Driver {
             let (k, v) = b.split_once('=').ok_or_else(|| format!("macro binding `{}` is not $name=tokens", b))?;
             let ts: proc_macro2::TokenStream = v.replace('~', " ").parse().map_err(|e| format!("binding `{}`: {}", b, e))?;
             bind.insert(k.trim_start_matches('$').to_string(), ts);
+            let module = self.modules.len().saturating_sub(1);
+            self.macro_bindings.push(MacroBinding { file: file.to_string(), mac: name.to_string(), arm, param: k.trim_start_matches('$').to_string(), bound: v.replace('~', "").chars().filter(|c| !c.is_whitespace()).collect(), module });
         }
         let expanded = expand_template(body, &bind, &prefix);
         let parsed: File = syn::parse2(expanded).map_err(|e| format!("macro_rules! {} arm {}: the instantiated body does not parse as items: {}", name, arm, e))?;
         let text = src.text.clone();
+        self.tables.file_defs.insert(vfile.to_string(), file_defs_of(&parsed));
         self.sources.insert(vfile.to_string(), Source { text, file: parsed });
         Ok(())
+    }
+
+    /// the concrete argument texts that reach parameter `$param` of arm `arm` of macro `mac` in `file`
+    fn macro_actuals(&self, file: &str, mac: &str, arm: usize, param: &str, depth: usize, out: &mut BTreeSet<String>) -> R<()> {
+        if depth > 6 {
+            return Err(format!("macro_rules! {}: invocation chain too deep to check", mac));
+        }
+        let src = &self.sources[file];
+        let mut defs: Vec<&ItemMacro> = vec![];
+        for it in all_items(&src.file.items) {
+            if let Item::Macro(m) = it {
+                if m.mac.path.is_ident("macro_rules") {
+                    defs.push(m);
+                }
+            }
+        }
+        let def = defs.iter().find(|m| m.ident.as_ref().map(|i| i == mac).unwrap_or(false)).ok_or_else(|| format!("macro_rules! {} not found", mac))?;
+        let arms = macro_arms(def);
+        let (pat, _) = arms.get(arm).ok_or_else(|| format!("macro_rules! {}: no arm {}", mac, arm))?;
+        let path = locate_param(pat.clone(), param).ok_or_else(|| format!("macro_rules! {} arm {}: no parameter ${}", mac, arm, param))?;
+        let arity = split_commas(pat.clone()).len();
+        // invocation sites: top-level items, and bodies of macro_rules! arms (where the argument may be a metavariable)
+        let mut sites: Vec<(proc_macro2::TokenStream, Option<(String, usize)>)> = vec![];
+        for it in all_items(&src.file.items) {
+            if let Item::Macro(m) = it {
+                if m.mac.path.is_ident(mac) {
+                    sites.push((m.mac.tokens.clone(), None));
+                }
+            }
+        }
+        for m in defs.iter() {
+            let mname = m.ident.as_ref().map(|i| i.to_string()).unwrap_or_default();
+            for (ai, (_, body)) in macro_arms(m).into_iter().enumerate() {
+                let mut inv = vec![];
+                find_invocations(body, mac, &mut inv);
+                for a in inv {
+                    sites.push((a, Some((mname.clone(), ai))));
+                }
+            }
+        }
+        for (args, ctx) in sites {
+            if split_commas(args.clone()).len() != arity {
+                continue; // another arm
+            }
+            let a = match extract_arg(args, &path) {
+                Some(a) => a,
+                None => return Err(format!("macro_rules! {}: cannot locate the argument for ${} in an invocation", mac, param)),
+            };
+            // `$q` inside another macro: follow it
+            if a.len() == 2 {
+                if let (proc_macro2::TokenTree::Punct(p), proc_macro2::TokenTree::Ident(q)) = (&a[0], &a[1]) {
+                    if p.as_char() == '$' {
+                        match &ctx {
+                            Some((om, oa)) => {
+                                self.macro_actuals(file, om, *oa, &q.to_string(), depth + 1, out)?;
+                                continue;
+                            }
+                            None => return Err(format!("macro_rules! {}: metavariable argument outside a macro", mac)),
+                        }
+                    }
+                }
+            }
+            let txt: String = a.iter().map(|t| t.to_string()).collect::<Vec<_>>().join("").chars().filter(|c| !c.is_whitespace()).collect();
+            out.insert(txt);
+        }
+        Ok(())
+    }
+
+    /// every actual argument of a bound macro parameter must be covered by the binding of some configured instance
+    fn check_macro_bindings(&mut self) {
+        let mut groups: BTreeMap<(String, String, usize, String), (BTreeSet<String>, usize)> = BTreeMap::new();
+        for b in self.macro_bindings.iter() {
+            let e = groups.entry((b.file.clone(), b.mac.clone(), b.arm, b.param.clone())).or_insert((BTreeSet::new(), b.module));
+            e.0.insert(b.bound.clone());
+        }
+        for ((file, mac, arm, param), (bound, module)) in groups {
+            let mut actual = BTreeSet::new();
+            let r = self.macro_actuals(&file, &mac, arm, &param, 0, &mut actual);
+            let msg = match r {
+                Err(e) => Some(e),
+                Ok(()) => {
+                    let missing: Vec<String> = actual.iter().filter(|a| !bound.contains(*a)).cloned().collect();
+                    if missing.is_empty() {
+                        None
+                    } else {
+                        Some(format!("macro_rules! {} arm {}: parameter ${} is bound to {{{}}} but the source invokes it with {{{}}}: the template is not the translation of those instances (add an instance per value)", mac, arm, param, bound.iter().cloned().collect::<Vec<_>>().join(", "), missing.join(", ")))
+                    }
+                }
+            };
+            if let Some(m) = msg {
+                self.modules[module].errors.push(format!("{}: {}", file, m));
+            }
+        }
     }
 
     /// the macro parameters a definition depends on: those it mentions, and those of the template definitions it mentions
@@ -481,6 +735,11 @@ impl Driver {
             (map[0].to_string(), map[1].to_string(), map[2..].iter().map(|s| s.to_string()).collect())
         };
         let line = st.span().start().line;
+        let derives = derive_list(&st.attrs);
+        if eqb.is_some() && !derives.contains("PartialEq") {
+            return Err(format!("struct `{}`: `eqb=` given but the struct does not derive PartialEq (a hand-written `eq` is not translated)", name));
+        }
+        let clone_ok = derives.contains("Clone") || derives.contains("Copy");
         // a generated record leaves out the fields whose type is outside the subset (then it cannot be constructed)
         let has_opaque = generated && fields.iter().any(|(_, t)| matches!(t, Ty::Opaque(_)));
         let ctor = if has_opaque { "-".to_string() } else { ctor };
@@ -492,9 +751,12 @@ impl Driver {
             fields: fields.into_iter().zip(projs).map(|((n, t), p)| FieldInfo { name: n, ty: t, proj: p }).collect(),
             eqb,
             generated,
-            module: module.to_string(),
+            module: if clone_ok { format!("clone:{}", module) } else { module.to_string() },
             origin: format!("{}:{}", file, line),
         };
+        if self.tables.adts.contains_key(name) || self.tables.externs.contains_key(name) {
+            return Err(format!("type key `{}` is configured twice (use a module-qualified key such as `module.{}` for a second type of that name)", name, name));
+        }
         self.tables.adts.insert(name.to_string(), Adt::Struct(info));
         Ok(())
     }
@@ -536,8 +798,13 @@ impl Driver {
             };
             variants.push(VariantInfo { name: vn, ctor, fields });
         }
-        let eqb = if eqb.is_none() && variants.iter().all(|v| v.fields.is_empty()) { Some(format!("{}_eqb", sanitize(name))) } else { eqb };
+        let derives = derive_list(&en.attrs);
+        if eqb.is_some() && !derives.contains("PartialEq") {
+            return Err(format!("enum `{}`: `eqb=` given but the enum does not derive PartialEq (a hand-written `eq` is not translated)", name));
+        }
+        let eqb = if eqb.is_none() && variants.iter().all(|v| v.fields.is_empty()) && derives.contains("PartialEq") { Some(format!("{}_eqb", sanitize(name))) } else { eqb };
         let auto_eqb = eqb.as_deref() == Some(format!("{}_eqb", sanitize(name)).as_str());
+        let clone_ok = derives.contains("Clone") || derives.contains("Copy");
         let line = en.span().start().line;
         let info = EnumInfo {
             name: name.to_string(),
@@ -545,9 +812,12 @@ impl Driver {
             variants,
             eqb,
             generated,
-            module: if auto_eqb { format!("auto-eqb:{}", module) } else { module.to_string() },
+            module: format!("{}{}", if auto_eqb { "auto-eqb:" } else { "" }, if clone_ok { format!("clone:{}", module) } else { module.to_string() }),
             origin: format!("{}:{}", file, line),
         };
+        if self.tables.adts.contains_key(name) || self.tables.externs.contains_key(name) {
+            return Err(format!("type key `{}` is configured twice (use a module-qualified key such as `module.{}` for a second type of that name)", name, name));
+        }
         self.tables.adts.insert(name.to_string(), Adt::Enum(info));
         Ok(())
     }
@@ -770,7 +1040,7 @@ impl Driver {
         let (ty, ex, l1, l2) = found[0];
         let mvars = self.mvars_of(quote::ToTokens::to_token_stream(ex), None, file);
         let ty = self.conv(ty, &BTreeSet::new(), st.as_deref(), None)?;
-        let mut tr = Tr { t: &self.tables, self_ty: st.clone(), ret_ty: ty.clone(), mut_self: false, counter: BTreeMap::new(), mut_methods: BTreeSet::new(), generic_tys: BTreeSet::new(), subst: BTreeMap::new(), fuel: false, needs_fuel: false, fuel_var: String::new(), fuel_names: BTreeSet::new(), mutarg_names: BTreeSet::new(), mut_params: vec![], ret_coq: String::new(), loops: vec![], fn_assigned: BTreeSet::new(), cur_file: file.to_string(), fn_coq: String::new(), loop_counter: 0, aux_defs: vec![], turbofish_types: None };
+        let mut tr = Tr { t: &self.tables, self_ty: st.clone(), ret_ty: ty.clone(), mut_self: false, counter: BTreeMap::new(), mut_methods: BTreeSet::new(), generic_tys: BTreeSet::new(), subst: BTreeMap::new(), fuel: false, needs_fuel: false, fuel_var: String::new(), fuel_names: BTreeSet::new(), mutarg_names: BTreeSet::new(), mut_params: vec![], ret_coq: String::new(), loops: vec![], fn_assigned: BTreeSet::new(), cur_file: file.to_string(), fn_coq: String::new(), loop_counter: 0, aux_defs: vec![], turbofish_types: None, self_coq: String::new(), mut_param_coq: vec![] };
         let mut cenv = Env::default();
         let cbinders = self.mvar_binders(&mvars, &mut tr, &mut cenv)?;
         let v = tr.pure(ex, &cenv, Some(&ty)).map_err(|e| format!("{} const `{}`: {}", file, spec, e))?;
@@ -780,6 +1050,9 @@ impl Driver {
         let head = format!("(* {}:{}-{}  const {}  hash:{:016x} *)", file, l1, l2, spec, fnv1a(&text));
         let cty = self.tables.coq_ty(&ty)?;
         let body = format!("{}\nDefinition {}{} : {} := {}.\n", head, coq, cbinders, cty, v.s);
+        if self.tables.consts.iter().any(|c| c.key == spec || c.coq == coq) {
+            return Err(format!("{} const `{}`: key or Coq name `{}` already used", file, spec, coq));
+        }
         self.tables.consts.push(ConstInfo { key: spec.to_string(), coq, ty, mvars, file: file.to_string() });
         let idx = self.tables.consts.len() - 1;
         self.modules[module].decls.push(Decl::Const(idx, file.to_string(), body));
@@ -850,6 +1123,8 @@ impl Driver {
             loop_counter: 0,
             aux_defs: vec![],
             turbofish_types: None,
+            self_coq: String::new(),
+            mut_param_coq: vec![],
         };
         tr.fn_assigned = tr.effects_stmts(&ff.block.stmts).assigned;
         let mut env = Env::default();
@@ -874,8 +1149,20 @@ impl Driver {
             let t = self.tables.resolve_name(&stn, &job.file, Some(&stn)).unwrap_or(Ty::Adt(stn));
             let c = tr.fresh("self");
             write!(binders, " ({} : {})", c, self.tables.coq_ty(&t).map_err(nf)?).unwrap();
-            env.push("self", var(c, t));
+            // `&mut self` and `mut self` may be written; `&self` / `self` may not
+            let self_mut = ff.sig.inputs.iter().any(|a| matches!(a, FnArg::Receiver(r) if r.mutability.is_some()));
+            tr.self_coq = c.clone();
+            env.push("self", var_mut(c, t, self_mut));
         }
+        let param_mut: Vec<bool> = ff
+            .sig
+            .inputs
+            .iter()
+            .filter_map(|a| match a {
+                FnArg::Typed(pt) => Some(matches!(&*pt.pat, Pat::Ident(i) if i.mutability.is_some())),
+                _ => None,
+            })
+            .collect();
         for (n, t) in info.params.iter() {
             if n == "_" {
                 let c = tr.fresh("unused");
@@ -884,7 +1171,12 @@ impl Driver {
             }
             let c = tr.fresh(n);
             write!(binders, " ({} : {})", c, self.tables.coq_ty(t).map_err(nf)?).unwrap();
-            env.push(n, var(c, t.clone()));
+            let pi = info.params.iter().position(|(m, _)| m == n).unwrap();
+            let is_ref_mut = info.mut_params[pi];
+            if is_ref_mut {
+                tr.mut_param_coq.push(c.clone());
+            }
+            env.push(n, var_mut(c, t.clone(), is_ref_mut || param_mut.get(pi).copied().unwrap_or(false)));
         }
         let ret = info.ret.clone();
         let env_top = env.clone();
@@ -943,7 +1235,7 @@ impl Driver {
                     }
                     out.push_str(".\n");
                 }
-                if e.module.starts_with("auto-eqb:") {
+                if e.module.contains("auto-eqb:") {
                     // structural equality of a field-less enum (derive(PartialEq))
                     let n = e.eqb.clone().unwrap();
                     writeln!(out, "Definition {} (a b : {}) : bool :=\n  match a, b with", n, e.coq_ty).unwrap();
@@ -1019,7 +1311,7 @@ fn main() {
     }
     let cfg = std::fs::read_to_string(&args[2]).expect("cannot read configuration");
     let outdir = Path::new(&args[3]);
-    let mut d = Driver { cur_file: String::new(), repo: args[1].clone(), sources: BTreeMap::new(), tables: Tables::default(), modules: vec![], jobs: vec![] };
+    let mut d = Driver { macro_bindings: vec![], cur_file: String::new(), repo: args[1].clone(), sources: BTreeMap::new(), tables: Tables::default(), modules: vec![], jobs: vec![] };
     // core::cmp::Ordering = Coq's comparison
     d.tables.adts.insert(
         "Ordering".into(),
@@ -1188,6 +1480,7 @@ fn main() {
             }
         }
     }
+    d.check_macro_bindings();
     // translate
     let mut failed = false;
     let mut outputs: Vec<(String, String)> = vec![];
